@@ -156,7 +156,7 @@ func (v *CheckpointView) Epoch() (Epoch, error) {
 }
 
 func (v *CheckpointView) Root() (Root, error) {
-	return AsRoot(v.Get(0))
+	return AsRoot(v.Get(1))
 }
 
 func (v *CheckpointView) Raw() (Checkpoint, error) {
